@@ -41,7 +41,7 @@ func init() {
 		CaseTimeout: 150 * time.Second,
 		Run:         runC06,
 		Floors: func(tier string) map[string]int {
-			m := map[string]int{"frames_judged": 80, "offchain_got_snapshot": 20, "onchain_got_incremental": 6, "end_state_identical": 50, "hostile_stream_frames_rejected": 20, "hostile_tx_rejected": 20}
+			m := map[string]int{"frames_judged": 80, "offchain_got_snapshot": 20, "onchain_got_incremental": 6, "end_state_identical": 50, "hostile_stream_frames_rejected": 20, "hostile_tx_rejected": 20, "hostile_empty_replica_cases": 4}
 			for _, r := range c06Relations {
 				m["rel_"+r] = 4
 			}
@@ -403,13 +403,18 @@ func c06Hostile(c *core.Case) {
 	}
 	cur := w.d.M
 	w.close()
-	if err := cl.Start(1); err != nil {
-		c.Inconclusive(err.Error())
-		return
-	}
-	if ok, _, _ := cl.WaitConverged(P, R, []string{"db"}, 5, 30*time.Second); !ok {
-		c.Inconclusive("replica did not converge")
-		return
+	// every fourth hostile case: the node the fake primary talks to is EMPTY (it
+	// never had the database): an incremental file extends nothing there either
+	emptyReplica := c.Index%16 == 3
+	if !emptyReplica {
+		if err := cl.Start(1); err != nil {
+			c.Inconclusive(err.Error())
+			return
+		}
+		if ok, _, _ := cl.WaitConverged(P, R, []string{"db"}, 5, 30*time.Second); !ok {
+			c.Inconclusive("replica did not converge")
+			return
+		}
 	}
 	pos := mon.PosOf(P.Node, "db")
 	// hostile variants relative to position pos
@@ -464,7 +469,19 @@ func c06Hostile(c *core.Case) {
 	}
 
 	// (2) through the stream: a fake primary serves crafted frames to the replica
-	rpos := mon.PosOf(R.Node, "db")
+	var rpos mon.PosKey
+	if !emptyReplica {
+		rpos = mon.PosOf(R.Node, "db")
+	} else {
+		// (for an empty node: the next file of the real history, with every page of
+		// the database in it, and one with a single page)
+		full := map[uint32][]byte{}
+		for p := uint32(1); p <= next.PageN; p++ {
+			full[p] = next.Page(p)
+		}
+		variants["overlap"] = buildLTX(ps, next.PageN, pos.TXID+1, pos.TXID+1, pos.Chk, next.Checksum(), full, 0x4242)
+		variants["far-behind"] = good(2, 2, pos.Chk)
+	}
 	var mu sync.Mutex
 	served := map[string]bool{}
 	order := []string{"gap", "overlap", "far-behind", "wrong-prechksum", "corrupt-body", "truncated"}
@@ -510,7 +527,10 @@ func c06Hostile(c *core.Case) {
 	go func() { _ = srv.Serve(ln) }()
 	defer srv.Close()
 	// take the real primary away and hand the "lease" to the fake node
-	before := c07Snapshot(R.Node, "db")
+	var before c07Snap
+	if !emptyReplica {
+		before = c07Snapshot(R.Node, "db")
+	}
 	cl.Stop(0)
 	fake := cl.Svc.Leaser("fake", "fake", "http://"+ln.Addr().String())
 	deadline := time.Now().Add(10 * time.Second)
@@ -520,6 +540,13 @@ func c06Hostile(c *core.Case) {
 		}
 		cl.Svc.Expire()
 		time.Sleep(5 * time.Millisecond)
+	}
+	if emptyReplica {
+		if err := cl.Start(1); err != nil {
+			c.Inconclusive(err.Error())
+			return
+		}
+		c.Count("hostile_empty_replica_cases", 1)
 	}
 	// wait until every variant has been served
 	deadline = time.Now().Add(20 * time.Second)
@@ -543,7 +570,13 @@ func c06Hostile(c *core.Case) {
 		c.Violate("C06/panic/"+siteOf(pe.Stack), fmt.Sprint(pe.Value), detail)
 		return
 	}
-	if after.pos != rpos || after.img != before.img {
+	if emptyReplica {
+		// nothing of what was served may have been stored, in any form
+		if after.pos != rpos || after.size != 0 || after.ltx != "" {
+			c.Violate("C06/stream-file-not-extending-position-applied", fmt.Sprintf("empty-replica: a node that never had the database (position %s) was served files that are not a snapshot (first transaction > 1 or wrong pre-apply checksum); afterwards position %s, %d pages, transaction files [%s]", rpos, after.pos, after.size, after.ltx), detail)
+			return
+		}
+	} else if after.pos != rpos || after.img != before.img {
 		c.Violate("C06/stream-file-not-extending-position-applied", fmt.Sprintf("a replica at %s was served files that do not extend its position; afterwards position %s image %s (before: %s)", rpos, after.pos, after.img, before.img), detail)
 		return
 	}
